@@ -9,6 +9,34 @@ TRUST = ("Trusted base: clang 14 front end and its debug info, the LLVM-14 IR re
          "the rule tables documented in DESIGN.md. ")
 
 CLAIMS = {
+    "C08": dict(
+        category="other",
+        technique="static analysis: who-may-write on the derived fields, per-iteration must-assign and guard-independence of the derivation, must-follow path rule (mutation -> derivation before unlock), path-sensitive walk with constant propagation for 'marked free => list emptied' incl. helper summaries",
+        text=("Decides: on_track/orientation are written only by the derivation, the reset and creation code; the derivation assigns on_track on every path of every iteration, "
+              "orientation with every on_track=true, and no assignment depends on the old derived values; every address-list mutation is followed by the derivation before the "
+              "segment/train mutexes are released; whenever a segment is marked free (directly or through a helper) its address list is emptied or known empty on that path. "
+              "Equality of the reported position set with the lists is not decided."),
+        note=TRUST,
+        design="DESIGN.md section 4, C08",
+    ),
+    "C16": dict(
+        category="other",
+        technique="static analysis: partial order of call sites by dominance in the stop routine, guard provenance (running flag), thread-handle typestate (create/join/reset), ownership rule for queue entries, alloc/free pairing of global containers over the start and stop call trees",
+        text=("Decides: stop commands soft-stop < flush < zero speed < flush < track-off < flush < running=false < every join < every free; start bodies guarded by !running and the stop body "
+              "by running; every created thread handle is joined behind a creation test and reset afterwards; an entry owning a heap buffer is never freed without it (also not via "
+              "g_queue_free_full(.., free)); every global container allocated on the start path is freed on the stop path. Traffic content and full leak freedom are not decided."),
+        note=TRUST,
+        design="DESIGN.md section 4, C16",
+    ),
+    "C20": dict(
+        category="other",
+        technique="static analysis: dominance/post-dominance partial order in the reset routine, guard and argument provenance of the feature transmit, loop-nesting rule (no re-send in the answer wait loop), who-may-mutate the configured lists, call-site guard in the start functions",
+        text=("Decides: reset message and table reset < enumeration < features < enable < GO < flush < initial values, each on every path; features only behind the board's connected test, to that "
+              "board's address, number/value from one record, not re-sent inside the wait loop; initial values only through public high-level setters over all four lists; configured lists "
+              "not modified after parsing; both start functions reach the reset routine only on the connection-established branch. 'Exactly once' per configuration is not decided."),
+        note=TRUST,
+        design="DESIGN.md section 4, C20",
+    ),
     "C17": dict(
         category="other",
         technique="static analysis: forward must-initialised dataflow over the leaves of every result type (DWARF), per-iteration must-analysis for result arrays, entity-field read coverage, pointer provenance (allocator-only) and shallow-copy detection, structural comparison of count and fill guards",
